@@ -2,7 +2,7 @@
    This file contains the property theorems and nothing else; each is closed by `exact` of a lemma
    proved in Proofs/, and its axioms are printed beneath it. *)
 From Coq Require Import List NArith ZArith.
-From FFSM2 Require Import Model.Bits Model.BitStream Proofs.BitsProofs Proofs.BitStreamProofs Model.Cxx Generated.LeafCode Proofs.LeafTactics Proofs.LeafConsts Proofs.LeafCodeProofs Proofs.LeafCodeWide.
+From FFSM2 Require Import Model.Bits Model.BitStream Proofs.BitsProofs Proofs.BitStreamProofs Model.Cxx Generated.LeafCode Proofs.LeafTactics Proofs.LeafConsts Proofs.LeafCodeProofs Proofs.LeafCodeWide Proofs.LeafCodeArrays Proofs.LeafCodeBuffer.
 Import ListNotations.
 Local Open Scope N_scope.
 
@@ -105,6 +105,19 @@ Theorem C13_source_read32_is_the_model : forall W c buf,
   = let '(v, c') := read buf c W in Some (Some (Z.of_N v), cursor_fld c', stream_obj buf).
 Proof. exact src_read32. Qed.
 Print Assumptions C13_source_read32_is_the_model.
+
+(* StreamBufferT<N>: the buffer has ceil(N / 8) bytes, and its comparison operators are byte-wise equality over all of them. *)
+Theorem C13_source_buffer_size_is_the_model : forall bits : Z, (1 <= bits <= 255)%Z ->
+  build_consts leaf_ftable StreamBufferT_100_consts (nbitcapacity bits) = Some (sb_consts bits).
+Proof. exact src_StreamBuffer_consts. Qed.
+Print Assumptions C13_source_buffer_size_is_the_model.
+Theorem C13_source_buffer_equality : forall (bits : Z) b o, (1 <= bits <= 255)%Z -> Forall (fun x => x < 256) b -> Forall (fun x => x < 256) o ->
+  Z.of_nat (length b) = ((bits + 7) / 8)%Z -> length o = length b ->
+  result (run leaf_ftable (sb_consts bits) StreamBufferT_100__op_eq [] [] (sb_obj b o)) = Some (Some (b2z (bytes_eqb b o)), [], sb_obj b o) /\
+  result (run leaf_ftable (sb_consts bits) StreamBufferT_100__op_ne [] [] (sb_obj b o)) = Some (Some (b2z (negb (bytes_eqb b o))), [], sb_obj b o) /\
+  (bytes_eqb b o = true <-> b = o).
+Proof. intros bits b o H1 H2 H3 H4 H5. split; [exact (src_StreamBuffer_eq bits b o H1 H2 H3 H4 H5)|split; [exact (src_StreamBuffer_ne bits b o H1 H2 H3 H4 H5)|exact (bytes_eqb_spec b o (eq_sym H5))]]. Qed.
+Print Assumptions C13_source_buffer_equality.
 
 (* the hypotheses are satisfiable and the statement is not vacuous: a 3-bit field at offset 5 of a 2-byte buffer *)
 Example C13_nonvacuous :
